@@ -46,30 +46,44 @@ func (u *verifUF) conflict() bool {
 
 var verifVarNames = []string{"p1", "p2", "q1", "q2", "G", "H"}
 
+// slot alphabet: (context, variable) pairs and uses.  Contexts: 0 = f(p1,p2), 1 = g(q1,q2), 2 = BEGIN,
+// 3 = h() (a function without parameters, called from BEGIN).
+type verifSlot struct{ ctx, v int }
+
+var verifSlotPlaces = []verifSlot{{0, 0}, {0, 1}, {0, 4}, {1, 2}, {1, 4}, {2, 4}, {2, 5}, {3, 4}, {3, 5}}
+
 func VerifC16Verdict() {
-	nslots := verifIntRange(1, verifBound(2, 3))
+	nslots := verifIntRange(1, 3)
+	thorough := verifBound(0, 1) == 1
 	uf := &verifUF{}
 	for i := 0; i < 6+nslots; i++ {
 		uf.parent = append(uf.parent, i)
 		uf.scalar = append(uf.scalar, false)
 		uf.array = append(uf.array, false)
 	}
-	bodies := []string{"", "", ""} // f, g, BEGIN
+	bodies := []string{"", "", "", ""} // f, g, BEGIN, h
+	usedP2, usedQ2 := false, false    // second parameters exist only when something refers to them
 	for s := 0; s < nslots; s++ {
-		ctx := verifIntRange(0, 2)
-		var v int
-		switch ctx {
-		case 0:
-			v = []int{0, 1, 4}[verifIntRange(0, 2)]
-		case 1:
-			v = []int{2, 3, 4}[verifIntRange(0, 2)]
-		default:
-			v = []int{4, 5}[verifIntRange(0, 1)]
+		// quick tier: the first two slots range over 4 places x 5 uses, the last slot is a direct use at any place;
+		// thorough tier: every slot ranges over all 9 places x 7 uses
+		places := verifSlotPlaces
+		uses := []int{0, 1, 2, 3, 4, 5, 6}
+		if !thorough {
+			if s < 2 && nslots == 3 {
+				places = []verifSlot{{0, 0}, {1, 2}, {2, 4}, {3, 4}}
+				uses = []int{0, 1, 2, 4, 5}
+			} else if nslots == 3 {
+				uses = []int{0, 1}
+			}
 		}
+		place := places[verifIntRange(0, len(places)-1)]
+		ctx, v := place.ctx, place.v
 		name := verifVarNames[v]
+		usedP2 = usedP2 || v == 1
+		usedQ2 = usedQ2 || v == 3
 		fresh := "u" + string([]byte{byte('0' + s)})
 		var stmt string
-		switch verifIntRange(0, 5) {
+		switch uses[verifIntRange(0, len(uses)-1)] {
 		case 0:
 			stmt = name + " = 1"
 			uf.scalar[uf.find(v)] = true
@@ -81,23 +95,40 @@ func VerifC16Verdict() {
 			uf.union(v, 0)
 		case 3:
 			stmt = "f(" + fresh + ", " + name + ")"
+			usedP2 = true
 			uf.union(6+s, 0)
 			uf.union(v, 1)
 		case 4:
 			stmt = "g(" + name + ")"
 			uf.union(v, 2)
+		case 5:
+			// an expression argument forces the parameter to be a scalar (the variable slot is unused here)
+			stmt = "g(1)"
+			uf.scalar[uf.find(2)] = true
 		default:
-			stmt = "g(" + fresh + ", " + name + ")"
-			uf.union(6+s, 2)
-			uf.union(v, 3)
+			stmt = "f(" + fresh + ", $1)"
+			usedP2 = true
+			uf.union(6+s, 0)
+			uf.scalar[uf.find(1)] = true
 		}
 		bodies[ctx] += stmt + "; "
 	}
-	fsrc := "function f(p1, p2) { " + bodies[0] + "}\n"
-	gsrc := "function g(q1, q2) { " + bodies[1] + "}\n"
-	bsrc := "BEGIN { " + bodies[2] + "}\n"
+	fparams, gparams := "p1", "q1"
+	if usedP2 {
+		fparams = "p1, p2"
+	}
+	if usedQ2 {
+		gparams = "q1, q2"
+	}
+	fsrc := "function f(" + fparams + ") { " + bodies[0] + "}\n"
+	gsrc := "function g(" + gparams + ") { " + bodies[1] + "}\n"
+	hsrc := "function h() { " + bodies[3] + "}\n"
+	bsrc := "BEGIN { " + bodies[2] + "h() }\n"
 	want := uf.conflict()
-	orders := []string{fsrc + gsrc + bsrc, gsrc + fsrc + bsrc, bsrc + gsrc + fsrc}
+	orders := []string{fsrc + gsrc + hsrc + bsrc, bsrc + hsrc + gsrc + fsrc}
+	if !thorough && nslots == 3 {
+		orders = orders[:1] // both orders are tried for 1-2 slots (and for 3 in the thorough tier)
+	}
 	for _, src := range orders {
 		_, err := ParseProgram([]byte(src), nil)
 		rejected := err != nil
